@@ -32,6 +32,7 @@ struct mtask_s {
 	double loaded_at;
 	int tpl;
 	int gen;		/* incarnation: a cancelled and re-added UID is a new task, a replaced one is not */
+	int linger_ok;		/* its last start failed (injected fault): whether it is ever retired is left open */
 };
 
 struct model_s {
@@ -168,7 +169,7 @@ pick_colliding_uids(void)
 }
 
 /* ---------------- events ---------------- */
-enum {E_ADD, E_CANCEL, E_TICK_ONTIME, E_TICK_IDLE, E_TICK_LATE, E_EXIT, E_LIST, E_SCHED, E_ADDOWN, E_ADD2, E_TICK_EXACT};
+enum {E_ADD, E_CANCEL, E_TICK_ONTIME, E_TICK_IDLE, E_TICK_LATE, E_EXIT, E_LIST, E_SCHED, E_ADDOWN, E_ADD2, E_TICK_EXACT, E_TICK_FAIL};
 struct ev_s {
 	int kind;
 	int user;	/* index into users[] */
@@ -231,12 +232,13 @@ evname(char *buf, size_t bsz, const struct ev_s *e)
 {
 	switch (e->kind) {
 	case E_ADD: snprintf(buf, bsz, "ADD(%u,%s,%s)", users[e->user], uids[e->uid], tpls[e->arg].name); break;
-	case E_ADDOWN: snprintf(buf, bsz, "ADD(%u,%s,%s,owner=%s)", users[e->user], uids[e->uid], tpls[e->arg].name, e->arg2 == 1 ? "self" : "other"); break;
+	case E_ADDOWN: snprintf(buf, bsz, "ADD(%u,%s,%s,owner=%s)", users[e->user], uids[e->uid], tpls[e->arg].name, e->arg2 == 1 ? "self" : e->arg2 == 2 ? "other" : e->arg2 == 3 ? "self-by-name" : e->arg2 == 4 ? "other-by-name" : "uid-without-passwd-entry"); break;
 	case E_ADD2: snprintf(buf, bsz, "ADD2(%u,%s+%s,%s)", users[e->user], uids[e->uid], uids[e->arg2], tpls[e->arg].name); break;
 	case E_CANCEL: snprintf(buf, bsz, "CANCEL(%u,%s)", users[e->user], uids[e->uid]); break;
 	case E_TICK_ONTIME: snprintf(buf, bsz, "TICK(on-time)"); break;
 	case E_TICK_IDLE: snprintf(buf, bsz, "TICK(idle)"); break;
 	case E_TICK_EXACT: snprintf(buf, bsz, "TICK(exact)"); break;
+	case E_TICK_FAIL: snprintf(buf, bsz, "TICK(on-time, pipe() fails with EMFILE)"); break;
 	case E_TICK_LATE: snprintf(buf, bsz, "TICK(late-%d)", e->arg); break;
 	case E_EXIT: snprintf(buf, bsz, "EXIT(%d)", e->arg); break;
 	case E_LIST: snprintf(buf, bsz, "LIST(%u%s)", users[e->user], e->arg == 1 ? " as other" : ""); break;
@@ -248,7 +250,7 @@ evname(char *buf, size_t bsz, const struct ev_s *e)
 static const char*
 evkind(const struct ev_s *e)
 {
-	static const char *const k[] = {"ADD", "CANCEL", "TICK-ontime", "TICK-idle", "TICK-late", "EXIT", "LIST", "SCHED", "ADDOWN", "ADD2", "TICK-exact"};
+	static const char *const k[] = {"ADD", "CANCEL", "TICK-ontime", "TICK-idle", "TICK-late", "EXIT", "LIST", "SCHED", "ADDOWN", "ADD2", "TICK-exact", "TICK-spawnfail"};
 	return k[e->kind];
 }
 
@@ -272,6 +274,17 @@ enabled(struct ev_s *ev, int max)
 	}
 	if (armed || zombies) {
 		PUSH(E_TICK_ONTIME);
+	}
+	if (armed && prop == 12) {
+		/* deviation: the start of the one task that is due fails before a child exists */
+		int ndue = 0;
+		for (int i = 0; i < M_MAXT; i++) {
+			struct mtask_s *t = &M.t[i];
+			ndue += t->present && !t->zombie && t->next < t->nocc && t->occ[t->next] == e;
+		}
+		if (ndue == 1) {
+			PUSH(E_TICK_FAIL);
+		}
 	}
 	if (armed && e - hx_now > 0.75 && !narrow) {
 		PUSH(E_TICK_IDLE);
@@ -324,6 +337,12 @@ enabled(struct ev_s *ev, int max)
 				PUSH(E_ADD, u, k, 2);
 				PUSH(E_ADDOWN, u, k, 0, 1);
 				PUSH(E_ADDOWN, u, k, 0, 2);
+				if (k == 0) {
+					/* the owner written as a user name, and as a number no user has */
+					PUSH(E_ADDOWN, u, k, 0, 3);
+					PUSH(E_ADDOWN, u, k, 0, 4);
+					PUSH(E_ADDOWN, u, k, 0, 5);
+				}
 			}
 			if (prop == 11 || m_find(uids[k])) {
 				PUSH(E_CANCEL, u, k);
@@ -365,6 +384,7 @@ m_load(struct mtask_s *t, const struct tpl_s *tp, unsigned owner, int tpi)
 	t->next = 0;
 	while (t->next < t->nocc && t->occ[t->next] < hx_now) t->next++;
 	t->zombie = t->next >= t->nocc;
+	t->linger_ok = 0;
 	/* a replaced task's executions keep running, they still count against the limit */
 }
 
@@ -495,9 +515,21 @@ apply(const struct ev_s *e)
 		char ol[48] = "";
 		unsigned ownfld = u;
 		int nins = 1;
+		int lenient = 0;
 		if (e->kind == E_ADDOWN) {
-			ownfld = e->arg2 == 1 ? u : (u == 1000 ? 1001 : 1000);
-			snprintf(ol, sizeof(ol), "X-ECHS-OWNER:%u\n", ownfld);
+			const unsigned other = u == 1000 ? 1001 : 1000;
+			ownfld = (e->arg2 == 1 || e->arg2 == 3) ? u : other;
+			if (e->arg2 <= 2) {
+				snprintf(ol, sizeof(ol), "X-ECHS-OWNER:%u\n", ownfld);
+			} else if (e->arg2 <= 4) {
+				snprintf(ol, sizeof(ol), "X-ECHS-OWNER:%s\n", ownfld == 1000 ? "alice" : "bob");
+			} else {
+				/* names nobody: refusing it or taking it for the submitter are both defensible,
+				 * what is accepted must be the submitter's in every respect */
+				snprintf(ol, sizeof(ol), "X-ECHS-OWNER:4242\n");
+				ownfld = u;
+				lenient = 1;
+			}
 		}
 		o = mk_add(req, sizeof(req), uids[e->uid], &tpls[e->arg], ol, o);
 		if (e->kind == E_ADD2) {
@@ -514,6 +546,8 @@ apply(const struct ev_s *e)
 			if (ownfld != u) {
 				expfail++;
 			} else if (t && t->owner != u) {
+				expfail++;
+			} else if (lenient && rp.nsucc == 0 && rp.nfail == 1) {
 				expfail++;
 			} else {
 				if (t == NULL) t = m_new(uid);
@@ -590,10 +624,11 @@ apply(const struct ev_s *e)
 	case E_TICK_ONTIME:
 	case E_TICK_IDLE:
 	case E_TICK_EXACT:
+	case E_TICK_FAIL:
 	case E_TICK_LATE: {
 		double to;
 		double ear = m_earliest();
-		if (e->kind == E_TICK_ONTIME) {
+		if (e->kind == E_TICK_ONTIME || e->kind == E_TICK_FAIL) {
 			to = ear < 1e299 ? ear + 0.001 : hx_now + 1.0;
 			if (to <= hx_now) to = hx_now + 0.001;
 		} else if (e->kind == E_TICK_IDLE) {
@@ -626,6 +661,13 @@ apply(const struct ev_s *e)
 				if (t->next < t->nocc && t->occ[t->next] < to) {
 					while (t->next < t->nocc && t->occ[t->next] < to) t->next++;
 					/* the limit is judged against what runs when this start happens */
+					if (e->kind == E_TICK_FAIL) {
+						/* the occurrence is used up, nothing comes into being */
+						t->fired = 1;
+						t->linger_ok = t->next >= t->nocc;
+						any = 1;
+						continue;
+					}
 					if (!exp_spawn[i]) {
 						exp_nd[i] = t->limit && t->running >= t->limit;
 					}
@@ -637,7 +679,9 @@ apply(const struct ev_s *e)
 			if (!any || hx_drift <= 0) break;
 			to += hx_drift;
 		}
+		hx_pipe_fail = e->kind == E_TICK_FAIL;
 		hx_tick(tick_to);
+		hx_pipe_fail = 0;
 		break;
 	}
 	case E_EXIT: {
@@ -675,7 +719,7 @@ apply(const struct ev_s *e)
 	/* model: retire tasks that are exhausted, have fired and have no execution left */
 	for (int i = 0; i < M_MAXT; i++) {
 		struct mtask_s *t = &M.t[i];
-		if (t->present && !t->zombie && t->next >= t->nocc && t->fired && t->running == 0) {
+		if (t->present && !t->zombie && t->next >= t->nocc && t->fired && t->running == 0 && !t->linger_ok) {
 			t->present = 0;
 		}
 	}
@@ -779,6 +823,7 @@ canon(void)
 		h = hx_hash(h, &t->running, sizeof(t->running));
 		h = hx_hash(h, &t->fired, sizeof(t->fired));
 		h = hx_hash(h, &t->zombie, sizeof(t->zombie));
+		h = hx_hash(h, &t->linger_ok, sizeof(t->linger_ok));
 		h = hx_hash(h, &t->loaded_at, sizeof(t->loaded_at));
 		h = hx_hash(h, &t->tpl, sizeof(t->tpl));
 	}
